@@ -279,9 +279,11 @@ theorem rel_process (s : St) (f : Frame) (tgt : Option Caller) :
   · exact rel_readerCleanup _ _ _
   · exact rel_setGoAway _ _ _ _
   · repeat' split
-    · exact rel_with_settings _ _ _ _
-    · exact Rel.refl _ _
-    · exact rel_with_settings _ _ _ _
+    all_goals first
+      | exact (rel_with_settings _ _ _ _).thenBroadcast
+      | exact rel_with_settings _ _ _ _
+      | exact (Rel.refl _ _).thenBroadcast
+      | exact Rel.refl _ _
   · exact rel_readerCleanup _ _ _
 
 end Req.Lemmas.C09H2Rel
